@@ -293,4 +293,6 @@ PARTS = [
     Part('tensor_split', check_split_tensor, strategy=lambda tier: gen_tensor_case(),
          n={'quick': 300, 'thorough': 5000}, workers={'quick': 4, 'thorough': 16},
          doc='split_mps_tensor with the three singular-value distributions and tol >= 0'),
+    Part('fuzz_matrix_split', None, fuzz_of='matrix_split', runs={'quick': 0, 'thorough': 30000}, workers={'quick': 0, 'thorough': 4},
+         doc='atheris campaign over block matrices, spectra and tolerances'),
 ]
